@@ -4,6 +4,7 @@ package zzrt
 
 import (
 	"math/big"
+	"time"
 
 	"github.com/dgraph-io/badger/v4"
 )
@@ -39,3 +40,8 @@ func KVConflicts()
 func SizedBlob(n int) []byte
 func Go(f func())
 func Wait()
+
+// ClockNow / ClockNano: the engine's clock (arbitrary non-decreasing instants); used by the
+// clock-package stubs so that native replays read the model's instants.
+func ClockNow() time.Time
+func ClockNano() uint64
